@@ -136,17 +136,18 @@ func minPhi(v ssa.Value) (a, b ssa.Value, ok bool) {
 // storeTable lists, for every store to one of the given fields in fn, "guards => field = expr".
 func storeTable(fn *ssa.Function, fields map[*types.Var]bool, names map[ssa.Value]string, guardStr func(*ssa.BasicBlock) string) []string {
 	var out []string
-	eachInstr(fn, func(in ssa.Instruction) {
-		st, ok := in.(*ssa.Store)
-		if !ok {
-			return
+	for fv := range fields {
+		for _, d := range deepStoresTo(fn, fv) {
+			nm := map[ssa.Value]string{}
+			for k, v := range names {
+				nm[k] = v
+			}
+			for prm, arg := range d.subst {
+				nm[prm] = exprString(arg, names, 0)
+			}
+			out = append(out, guardStr(d.Site.Block())+" => "+fv.Name()+" = "+exprString(d.Store.Val, nm, 0))
 		}
-		fv, _ := fieldAddrOf(st.Addr)
-		if !fields[fv] {
-			return
-		}
-		out = append(out, guardStr(st.Block())+" => "+fv.Name()+" = "+exprString(st.Val, names, 0))
-	})
+	}
 	sort.Strings(out)
 	return out
 }
